@@ -6,6 +6,8 @@
 
 package serf
 
+//@ import "github.com/hashicorp/memberlist"
+
 //@ pure func maxU64() uint64 { return 18446744073709551615 }
 
 // ---------------------------------------------------------------- C19 Lamport clock
@@ -43,7 +45,7 @@ package serf
 
 //@ pure func wfMembers(s *Serf) bool {
 //@   return s != nil && s.members != nil && s.recentIntents != nil && s.config != nil &&
-//@     forall(func(k string) bool { m, ok := s.members[k]; return ok ==> m != nil && m.Name == k })
+//@     forall(func(k string) bool { m, ok := s.members[k]; return ok ==> m != nil && allocated(m) && m.Name == k })
 //@ }
 
 //@ func (s *Serf) handleNodeJoinIntent(joinMsg *messageJoin) (rebroadcast bool)
@@ -76,7 +78,7 @@ package serf
 //@   return exists(func(i int) bool { return 0 <= i && i < len(l) && l[i] == m })
 //@ }
 //@ pure func wfList(l []*memberState) bool {
-//@   return (nilSlice(l) ==> len(l) == 0) && len(l) >= 0 &&
+//@   return (nilSlice(l) ==> len(l) == 0) && len(l) >= 0 && (nilSlice(l) || arrayAllocated(l)) &&
 //@     forall(func(i int) bool { return 0 <= i && i < len(l) ==> l[i] != nil }) &&
 //@     forall2(func(i, j int) bool { return 0 <= i && i < j && j < len(l) ==> l[i].Name != l[j].Name })
 //@ }
@@ -219,3 +221,91 @@ package serf
 //@   ensures wf_left_b [C15]: listB(s, s.leftMembers, StatusLeft)
 //@   ensures wf_disjoint [C15]: disjoint(s.failedMembers, s.leftMembers)
 //@ end
+
+// decodeTags: the tags of a member are irrelevant to the membership properties; its own
+// contract (C32) is proved separately
+//@ func (s *Serf) decodeTags(buf []byte) (tags map[string]string)
+//@   trusted
+//@ end
+
+//@ pure func dropped(s *Serf, t messageType) bool { return s.config.messageDropper(t) }
+//@ pure func memberEventIs(s *Serf, n int, ty EventType, m *memberState) bool {
+//@   e, ok := sentAt(s.config.EventCh, n).(MemberEvent)
+//@   return ok && e.Type == ty && len(e.Members) == 1 && e.Members[0].Name == m.Name && e.Members[0].Status == m.Status
+//@ }
+
+//@ func (s *Serf) handleNodeJoin(n *memberlist.Node)
+//@   requires wf: wfSerf(s) && n != nil
+//@   let m, known := s.members[n.Name]
+//@   let om := old(m)
+//@   let ost := old(m.Status)
+//@   let jt, jok := recentIntent(s.recentIntents, n.Name, messageJoinType)
+//@   let lt, lok := recentIntent(s.recentIntents, n.Name, messageLeaveType)
+//@   let drop := dropped(s, messageJoinType)
+//@   let evN := old(sentN(s.config.EventCh))
+//@   ensures dropped_noop [C02]: drop ==> known == old(known) && m == om && (known ==> m.Status == ost && m.statusLTime == old(m.statusLTime)) &&
+//@       sentN(s.config.EventCh) == evN
+//@   # a member seen for the first time takes the status/time of the buffered intent (leave wins)
+//@   ensures new_member [C02]: !drop && !old(known) ==> known && m != nil && m.Name == n.Name &&
+//@       m.Status == ite(old(lok), StatusLeaving, StatusAlive) &&
+//@       m.statusLTime == ite(old(lok), old(lt), ite(old(jok), old(jt), 0))
+//@   # a known member becomes alive again; its status time is untouched
+//@   ensures rejoin [C02,C15]: !drop && old(known) ==> known && m == om && m.Status == StatusAlive && m.statusLTime == old(m.statusLTime)
+//@   ensures join_event [C16]: !drop && s.config.EventCh != nil ==> sentN(s.config.EventCh) == evN+1 && memberEventIs(s, evN, EventMemberJoin, m)
+//@   ensures others_unchanged [C02,C15]: forall(func(k string) bool { o, ok := s.members[k]; oo, ook := old(s.members)[k]
+//@       return k != n.Name ==> ok == old(ook) && (ok ==> o == old(oo) && o.Status == old(o.Status) && o.statusLTime == old(o.statusLTime)) })
+//@   ensures wf_members [C15]: wfMembers(s)
+//@   ensures wf_failed_list [C15]: wfList(s.failedMembers)
+//@   ensures wf_failed_a [C15]: listA(s, s.failedMembers, StatusFailed)
+//@   ensures wf_failed_b [C15]: listB(s, s.failedMembers, StatusFailed)
+//@   ensures wf_left_list [C15]: wfList(s.leftMembers)
+//@   ensures wf_left_a [C15]: listA(s, s.leftMembers, StatusLeft)
+//@   ensures wf_left_b [C15]: listB(s, s.leftMembers, StatusLeft)
+//@   ensures wf_disjoint [C15]: disjoint(s.failedMembers, s.leftMembers)
+//@ end
+
+//@ func (s *Serf) handleNodeLeave(n *memberlist.Node)
+//@   requires wf: wfSerf(s) && n != nil
+//@   let m, known := s.members[n.Name]
+//@   let om := old(m)
+//@   let ost := old(m.Status)
+//@   let evN := old(sentN(s.config.EventCh))
+//@   ensures unknown_ignored [C02]: !old(known) ==> !known && sentN(s.config.EventCh) == evN
+//@   # memberlist reports the node gone: leaving -> left (graceful), alive -> failed, otherwise nothing
+//@   ensures leaving_to_left [C02,C15]: old(known) && ost == StatusLeaving ==> known && m == om && m.Status == StatusLeft && m.statusLTime == old(m.statusLTime)
+//@   ensures alive_to_failed [C02,C15]: old(known) && ost == StatusAlive ==> known && m == om && m.Status == StatusFailed && m.statusLTime == old(m.statusLTime)
+//@   ensures other_states_kept [C02]: old(known) && ost != StatusLeaving && ost != StatusAlive ==> known && m == om && m.Status == ost &&
+//@       m.statusLTime == old(m.statusLTime) && sentN(s.config.EventCh) == evN
+//@   ensures leave_event [C16]: old(known) && (ost == StatusLeaving || ost == StatusAlive) && s.config.EventCh != nil ==>
+//@       sentN(s.config.EventCh) == evN+1 && memberEventIs(s, evN, ite(ost == StatusLeaving, EventMemberLeave, EventMemberFailed), m)
+//@   ensures others_unchanged [C02,C15]: forall(func(k string) bool { o, ok := s.members[k]; oo, ook := old(s.members)[k]
+//@       return ok == old(ook) && (ok ==> o == old(oo)) && (k != n.Name && ok ==> o.Status == old(o.Status) && o.statusLTime == old(o.statusLTime)) })
+//@   ensures wf_members [C15]: wfMembers(s)
+//@   ensures wf_failed_list [C15]: wfList(s.failedMembers)
+//@   ensures wf_failed_a [C15]: listA(s, s.failedMembers, StatusFailed)
+//@   ensures wf_failed_b [C15]: listB(s, s.failedMembers, StatusFailed)
+//@   ensures wf_left_list [C15]: wfList(s.leftMembers)
+//@   ensures wf_left_a [C15]: listA(s, s.leftMembers, StatusLeft)
+//@   ensures wf_left_b [C15]: listB(s, s.leftMembers, StatusLeft)
+//@   ensures wf_disjoint [C15]: disjoint(s.failedMembers, s.leftMembers)
+//@ end
+
+//@ func (s *Serf) handleNodeUpdate(n *memberlist.Node)
+//@   requires wf: wfSerf(s) && n != nil
+//@   let m, known := s.members[n.Name]
+//@   let evN := old(sentN(s.config.EventCh))
+//@   ensures unknown_ignored [C02]: !old(known) ==> !known && sentN(s.config.EventCh) == evN
+//@   ensures status_untouched [C02,C15]: forall(func(k string) bool { o, ok := s.members[k]; oo, ook := old(s.members)[k]
+//@       return ok == old(ook) && (ok ==> o == old(oo) && o.Status == old(o.Status) && o.statusLTime == old(o.statusLTime)) })
+//@   ensures update_event [C16]: old(known) && s.config.EventCh != nil ==> sentN(s.config.EventCh) == evN+1 && memberEventIs(s, evN, EventMemberUpdate, m)
+//@   ensures wf_members [C15]: wfMembers(s)
+//@   ensures wf_failed_list [C15]: wfList(s.failedMembers)
+//@   ensures wf_failed_a [C15]: listA(s, s.failedMembers, StatusFailed)
+//@   ensures wf_failed_b [C15]: listB(s, s.failedMembers, StatusFailed)
+//@   ensures wf_left_list [C15]: wfList(s.leftMembers)
+//@   ensures wf_left_a [C15]: listA(s, s.leftMembers, StatusLeft)
+//@   ensures wf_left_b [C15]: listB(s, s.leftMembers, StatusLeft)
+//@   ensures wf_disjoint [C15]: disjoint(s.failedMembers, s.leftMembers)
+//@ end
+
+// END-OF-CONTRACTS
